@@ -33,6 +33,9 @@ import (
 //	            at that moment, plus column 0): what the columns ask for when rendered is the last setting, whenever it was made
 //	rowerr      <row Ref of all rows created so far>.AddError(...): the application notes a problem of its own on a row,
 //	            pending or attached (only generated where asked for)
+//	newrowzero  new(tabular.Row) kept pending (a zero-value row: refuses cells; addrow attaches it)
+//	foreigncell a by-value copy of a cell that was built and rendered (text, markdown) in ANOTHER table, added as the
+//	            only cell of a new row (only generated where asked for)
 //	zerorow     t.AddRow(new(tabular.Row))            (a zero-value row: not a separator, holds no cells, refuses Add)
 //
 // Ref is taken modulo the number of candidate rows; an operation without a
@@ -200,6 +203,32 @@ func (m *Model) Step(t tabular.Table, op Op) {
 		}
 	case "newrow":
 		m.All = append(m.All, &MRow{Real: tabular.NewRow()})
+	case "newrowzero":
+		m.All = append(m.All, &MRow{Real: new(tabular.Row), NilCells: true}) // a zero-value row, still pending: it refuses cells, it can be noted errors on, it can be added
+	case "foreigncell":
+		// a cell that has lived in ANOTHER table - built there, measured there by the text and the markdown
+		// renderer - is copied by value into a new row of this one: what the other table's renderers left on it is
+		// of no concern here
+		if len(op.Items) == 0 {
+			m.Noops++
+			return
+		}
+		c := mcell(op.Items[0])
+		other := texttable.New()
+		other.AddRowItems(c.Live.V)
+		other.Render()
+		markdown.Wrap(other).Render()
+		src, err := other.CellAt(tabular.CellLocation{Row: 1, Column: 1})
+		if err != nil {
+			m.Noops++
+			return
+		}
+		r := &MRow{Real: tabular.NewRow(), Cells: []MCell{c}}
+		r.Real.Add(*src)
+		t.AddRow(r.Real)
+		m.All = append(m.All, r)
+		m.noteAttached(r)
+		m.Copied = true
 	case "newrowcap":
 		c := op.Cap
 		if c < 0 {
